@@ -15,9 +15,9 @@ From C13 Require Model.
 From C14 Require Import Generated Model ServerModel Wire KlongLoop Spec.
 Import ListNotations.
 
-Definition gen_flags : flags := mkFlags cleanup_iterates_snapshot finally_clears_writer.
+Definition gen_flags : flags := mkFlags cleanup_iterates_snapshot finally_clears_writer writer_cleared_after_on_close.
 
-Inductive sstep := SLab (a : label) | SCleanAll | SCollect.
+Inductive sstep := SLab (a : label) | SCleanAll | SSettle | SCollect.
 
 Definition z2n (z : Z) : nat := Z.to_nat z.
 Definition z2b (z : Z) : bool := negb (Z.eqb z 0).
@@ -30,6 +30,9 @@ Definition parse_step (x : sx) : option sstep :=
       if is_tag "reset" t then Some (SLab AReset) else
       if is_tag "clean" t then Some (SLab AClean) else
       if is_tag "cleanall" t then Some SCleanAll else
+      if is_tag "settle" t then Some SSettle else
+      if is_tag "errdone" t then Some (SLab AErrDone) else
+      if is_tag "closedone" t then Some (SLab ACloseDone) else
       if is_tag "collect" t then Some SCollect else None
   | SL [SS t; SZ k] =>
       if is_tag "invoke" t then Some (SLab (AInvoke (z2n k))) else
@@ -66,6 +69,14 @@ Fixpoint clean_all (fuel : nat) (s : state) : state * list event :=
            end
   end.
 
+(* callbacks that do not yield: the awaited on_error returns at once, the finally runs, the awaited on_close returns at once *)
+Definition settle (s : state) : state * list event :=
+  let '(s1, e1) := clean_all (S (S (List.length (pending s)))) s in
+  let '(s2, e2, _) := try_step s1 AErrDone in
+  let '(s3, e3) := clean_all (S (S (List.length (pending s2)))) s2 in
+  let '(s4, e4, _) := try_step s3 ACloseDone in
+  (s4, e1 ++ e2 ++ e3 ++ e4).
+
 (* every caller whose coroutine has finished returns, in index order; not while the io thread is inside the cleanup loop *)
 Definition collect (s : state) : state * list event :=
   match lst s with
@@ -82,6 +93,7 @@ Fixpoint play (s : state) (ss : list sstep) : state * list event * list bool :=
         match x with
         | SLab a => try_step s a
         | SCleanAll => let '(s', e) := clean_all (S (S (List.length (pending s)))) s in (s', e, true)
+        | SSettle => let '(s', e) := settle s in (s', e, true)
         | SCollect => let '(s', e) := collect s in (s', e, true)
         end in
       let '(s2, e2, ts) := play s1 r in (s2, e1 ++ e2, t :: ts)
@@ -110,7 +122,7 @@ Definition sx_pc (p : pc) : sx :=
   | PAwait => sx_w "await" | PDone r => SL [sx_w "done"; sx_result r]
   end.
 Definition sx_lst (l : lstate) : sx :=
-  match l with LInit => sx_w "init" | LRun => sx_w "run" | LClean _ i d => SL [sx_w "clean"; sx_nat i; sx_bool d] | LExit => sx_w "exit" | LCrash => sx_w "crash" end.
+  match l with LInit => sx_w "init" | LErrWait _ => sx_w "errwait" | LCloseWait => sx_w "closewait" | LRun => sx_w "run" | LClean _ i d => SL [sx_w "clean"; sx_nat i; sx_bool d] | LExit => sx_w "exit" | LCrash => sx_w "crash" end.
 
 Definition parse_exn (t : list Z) : option exn :=
   if is_tag "notest" t then Some XNotEst else if is_tag "attr" t then Some XAttr else
@@ -157,14 +169,15 @@ Definition report (s : state) (h : list event) (taken : list bool) : sx :=
       SL [sx_w "quiescent"; sx_bool (quiescent gen_flags s)]].
 
 (* ---- byte-level play: the chunks actually fed to the real StreamReader, decoded by C13's reader model *)
-Inductive wsstep := WI (i : witem) | WCollect | WCleanAll.
+Inductive wsstep := WI (i : witem) | WCollect | WCleanAll | WSettle.
 
 Definition parse_wstep (x : sx) : option wsstep :=
   match x with
   | SL [SS t] =>
       if is_tag "eof" t then Some (WI WEof) else
       if is_tag "collect" t then Some WCollect else
-      if is_tag "cleanall" t then Some WCleanAll else None
+      if is_tag "cleanall" t then Some WCleanAll else
+      if is_tag "settle" t then Some WSettle else None
   | SL [SS t; y] =>
       if is_tag "l" t then match parse_step y with Some (SLab a) => Some (WI (WLab a)) | _ => None end else
       if is_tag "chunk" t then option_map (fun c => WI (WChunk c)) (sx_as_zs y) else None
@@ -202,6 +215,7 @@ Fixpoint wplay (lab : wmsg -> label) (w : wstate) (ss : list wsstep) : wstate * 
         | WI i => wstep gen_flags lab w i
         | WCollect => let '(s', e) := collect (w_s w) in (mkW s' (w_d w) (w_eof w), e)
         | WCleanAll => let '(s', e) := clean_all (S (S (List.length (pending (w_s w))))) (w_s w) in (mkW s' (w_d w) (w_eof w), e)
+        | WSettle => let '(s', e) := settle (w_s w) in (mkW s' (w_d w) (w_eof w), e)
         end in
       let '(w2, e2) := wplay lab w1 r in (w2, e1 ++ e2)
   end.
